@@ -180,6 +180,7 @@ class Setup:
 
 def setup(case, basis=None):
     """Objects for a process case.  `basis` overrides the basis of the initial feed (same physical composition)."""
+    failed_calls_once()
     s = Setup()
     s.mix = build.mixture(case["mixture"])
     s.mem = build.membrane(case["membrane"], s.mix)
@@ -251,6 +252,7 @@ def run(case, s, dt, cond_spec=None, kind=None, steps=None):
     preuse(cond.initial_feed_composition)
     n = steps or case["steps"]
     pv = s.pv
+    case = dict(case, model=build.fresh(case["model"]))
     if kind == "ideal-iso":
         return call(pv.ideal_isothermal_process, n, dt, cond, case["precision"], case["model"])
     if kind == "ideal-noniso":
@@ -262,6 +264,42 @@ def run(case, s, dt, cond_spec=None, kind=None, steps=None):
     if kind == "nonideal-iso":
         return call(pv.non_ideal_isothermal_process, **kw)
     return call(pv.non_ideal_non_isothermal_process, **kw)
+
+
+_poisoned = False
+
+
+def failed_calls_once():
+    """Once per worker process: a few public calls that are DOCUMENTED to fail (loading a curve file for an unknown mixture,
+    constructing an invalid composition / mixture).  On correct code a failed call leaves no trace; code that switches global
+    state off around a loop without try/finally (validators, caches) stays poisoned for the rest of the session."""
+    global _poisoned
+    if _poisoned:
+        return
+    _poisoned = True
+    import os
+    import tempfile
+    from pathlib import Path
+
+    from pyvaporation import DiffusionCurveSet
+
+    d = tempfile.mkdtemp(prefix="pvverif-poison-")
+    try:
+        f = os.path.join(d, "unknown_mixture.csv")
+        cols = "curve_id,membrane_name,mixture,feed_temperature,permeate_temperature,permeate_pressure,composition,composition_type,partial_flux_1,partial_flux_2,permeance_1,permeance_2,units,comment"
+        with open(f, "w") as fh:
+            fh.write(cols + "\n1,M,H2O_EtOH,333.15,,,0.1,weight,1.0,0.1,,,,c\n2,M,No_Such_Mixture,333.15,,,0.1,weight,1.0,0.1,,,,c\n")
+        call(DiffusionCurveSet.load, Path(f))
+        g = os.path.join(d, "bad_columns.csv")
+        with open(g, "w") as fh:
+            fh.write("a,b\n1,2\n")
+        call(DiffusionCurveSet.load, Path(g))
+    finally:
+        import shutil
+
+        shutil.rmtree(d, ignore_errors=True)
+    call(build.composition, 1.5, "weight")
+    call(build.Mixture, name="X", first_component=build.Components.H2O, second_component=build.Components.EtOH)
 
 
 def preuse(comp):
